@@ -10,10 +10,19 @@ if __name__ == "__main__":
     sys.path.insert(0, os.path.dirname(os.path.dirname(os.path.abspath(__file__))))
 from common import *
 
-LEAN_MODULES = ["Proofs.ImplV2Gen"]
-THEOREMS = ["EngineModel.Gen.ImplV2." + t for t in [
-    "decodeTrack_eq",
-]]
+LEAN_MODULES = ["Proofs.ImplV2Gen", "Proofs.ImplV2GenTransfer"]
+_Q = lambda names: ["EngineModel.Gen.ImplV2." + t for t in names]
+# regenerated decoder = hand model (every byte string; `_partial`: payload below vector::max_size() / 2^61 bytes)
+THEOREMS_EQ = _Q(["decodeTrack_eq", "decodeGrid_eq", "decodeBeat_eq", "decodeOvw_eq_partial",
+                  "decodeCues_eq_partial", "decodeLoops_eq_partial"])
+# the C02 / C05 statements transferred to the regenerated model
+THEOREMS_FOR = {
+    "C02": THEOREMS_EQ + _Q(["gen_track_spec", "gen_grid_spec", "gen_beat_spec", "gen_ovw_spec_partial",
+                             "gen_cues_spec_partial", "gen_loops_spec_partial"]),
+    "C05": THEOREMS_EQ + _Q(["gen_track_safe", "gen_beat_safe", "gen_ovw_safe_partial", "gen_cues_safe_partial",
+                             "gen_loops_safe_partial"]),
+}
+THEOREMS = sorted(set(THEOREMS_FOR["C02"] + THEOREMS_FOR["C05"]))
 TRUSTED_EXTRA = ["tools/tr_blobs.py (clang-14 JSON AST of src/djinterop/engine/v2/*_blob.cpp -> cursor-monad definitions; "
                  "node-kind -> combinator mapping and C++ struct <-> Lean structure table listed in design/codegen.md)"]
 ASSUMPTIONS = [
